@@ -1,3 +1,396 @@
-import QtyModel.Registry
+import QtyModel.Lemmas.ListFind
+import QtyModel.Lemmas.MacroFront
+import QtyModel.Lemmas.DecLaws
+import QtyModel.Props.C09
+/-
+  C11 — Generated types reflect their declaration in any order or literal form.
+  (partial: `syn` and rustc are modelled)
+
+  Property theorems only, about the token-level model of the macro front end
+  (`MacroFront`): which raw definitions expand, what the expansion contains, and
+  that permuting the unit attributes only permutes the units.
+-/
 namespace Qty.C11
+open Qty Qty.MacroFront
+
+def unitAttrs (it : RawItem) : List RawAttr := it.attrs.filter (fun a => a.kind == .unit)
+def refAttrs (it : RawItem) : List RawAttr := it.attrs.filter (fun a => a.kind == .refUnit)
+
+def argsOk (args : List Tok) : Bool :=
+  match parseArgs args with
+  | .ok _ => true
+  | .error _ => false
+
+/-- well-formedness of a raw definition, as a decidable predicate on its tokens:
+a field-less, non-generic struct; no argument or `A * B` / `A / B`; at least one `#[unit]`;
+at most one `#[ref_unit]`; with a reference unit: it has no scale and every unit has one;
+without: no unit has a scale or a prefix -/
+def WellFormedRaw (it : RawItem) : Bool :=
+  it.isStruct && !it.hasGenerics && !it.hasFields && argsOk it.args && !(unitAttrs it).isEmpty &&
+  (match refAttrs it with
+   | [] => (unitAttrs it).all (fun a => match parseUnit a.toks with
+       | some u => u.scale.isNone && u.pfx.isNone
+       | none => false)
+   | [r] => (match parseUnit r.toks with
+       | some rd => rd.scale.isNone
+       | none => false) &&
+       (unitAttrs it).all (fun a => match parseUnit a.toks with
+         | some u => u.scale.isSome
+         | none => false)
+   | _ => false)
+
+
+/-! ### helper lemmas: the shape of `declared` / `expand` in terms of the attribute lists -/
+
+theorem expand_eq (it : RawItem) : expand it =
+    match declared it with
+    | .error e => .error e
+    | .ok dc =>
+      match parseArgs it.args with
+      | .error e => .error e
+      | .ok dv => .ok { name := it.name, derived := dv, refIdent := dc.refIdent
+                        units := isort (orderOf dc) dc.units } := by
+  unfold expand analyze
+  cases declared it with
+  | error e => rfl
+  | ok dc => cases parseArgs it.args <;> rfl
+
+theorem expand_error_of_declared (it : RawItem) (e : MacroErr) (h : declared it = .error e) :
+    expand it = .error e := by
+  rw [expand_eq, h]
+
+theorem expand_ok_inv (it : RawItem) (d : QtyDef) (h : expand it = .ok d) :
+    ∃ dc dv, declared it = .ok dc ∧ parseArgs it.args = .ok dv ∧
+      d = { name := it.name, derived := dv, refIdent := dc.refIdent
+            units := isort (orderOf dc) dc.units } := by
+  rw [expand_eq] at h
+  cases hd : declared it with
+  | error e => simp [hd] at h
+  | ok dc =>
+    cases hp : parseArgs it.args with
+    | error e => simp [hd, hp] at h
+    | ok dv =>
+      simp only [hd, hp, Except.ok.injEq] at h
+      exact ⟨dc, dv, rfl, rfl, h.symm⟩
+
+theorem expand_ok_iff' (it : RawItem) :
+    (∃ d, expand it = .ok d) ↔ (∃ dc, declared it = .ok dc) ∧ argsOk it.args = true := by
+  rw [expand_eq]; unfold argsOk
+  cases declared it with
+  | error e => simp
+  | ok dc => cases parseArgs it.args <;> simp
+
+/-- the three mutually exclusive shapes of `declared` on a field-less, non-generic struct:
+no, one, or several `#[ref_unit]` attributes -/
+theorem declared_spec (it : RawItem) (hs : it.isStruct = true) (hg : it.hasGenerics = false)
+    (hf : it.hasFields = false) :
+    (refAttrs it = [] ∧ declared it =
+      if (unitAttrs it).isEmpty then
+        .error ⟨.callSite, "At least one unit description must be given via attribute `unit`."⟩
+      else match parseUnits false (unitsIx it) with
+        | .error e => .error e
+        | .ok us => .ok { refIdent := none, units := us }) ∨
+    (∃ j r, refAttrs it = [r] ∧ it.attrs[j]? = some r ∧ declared it =
+      if (unitAttrs it).isEmpty then
+        .error ⟨.callSite, "At least one unit description must be given via attribute `unit`."⟩
+      else match parseUnit r.toks with
+        | none => .error ⟨.attr j, "2, 3 or 4 comma-separated args expected."⟩
+        | some rd =>
+          if rd.scale.isSome then .error ⟨.attr j, "No scale expected for ref_unit."⟩
+          else match parseUnits true (unitsIx it) with
+            | .error e => .error e
+            | .ok us => .ok { refIdent := some rd.ident
+                              units := { rd with scale := some litOne } :: us }) ∨
+    (∃ j a msg, 2 ≤ (refAttrs it).length ∧ it.attrs[j]? = some a ∧ a.kind = .refUnit ∧
+      declared it = .error ⟨.attr j, msg⟩) := by
+  have hu : (unitsIx it).isEmpty = (unitAttrs it).isEmpty := unitsIx_isEmpty it
+  rcases refsIx_cases it with ⟨h, hr⟩ | ⟨j, r, h, hr, hj⟩ | ⟨p, j, a, rest, h, hr, hj, hk⟩
+  · left; exact ⟨hr, by rw [declared_none it hs hg hf h, hu]; rfl⟩
+  · right; left; exact ⟨j, r, hr, hj, by rw [declared_one it hs hg hf j r h, hu]; rfl⟩
+  · right; right; exact ⟨j, a, _, hr, hj, hk, declared_two it hs hg hf p j a rest h⟩
+
+theorem unitOk_false_eq : unitOk false = (fun a => match parseUnit a.toks with
+    | some u => u.scale.isNone && u.pfx.isNone
+    | none => false) := by
+  funext a; unfold unitOk; cases parseUnit a.toks <;> simp
+
+theorem unitOk_true_eq : unitOk true = (fun a => match parseUnit a.toks with
+    | some u => u.scale.isSome
+    | none => false) := by
+  funext a; unfold unitOk; cases parseUnit a.toks <;> simp
+
+/-- what a successful `declared` returns -/
+theorem declared_ok_spec (it : RawItem) (dc : Declared) (h : declared it = .ok dc) :
+    it.isStruct = true ∧ it.hasGenerics = false ∧ it.hasFields = false ∧ unitAttrs it ≠ [] ∧
+    ∃ us, us = (unitAttrs it).filterMap (fun a => parseUnit a.toks) ∧
+      us.length = (unitAttrs it).length ∧
+      ((refAttrs it = [] ∧ dc = { refIdent := none, units := us }) ∨
+       (∃ r rd, refAttrs it = [r] ∧ parseUnit r.toks = some rd ∧ rd.scale = none ∧
+          dc = { refIdent := some rd.ident, units := { rd with scale := some litOne } :: us })) := by
+  cases hs : it.isStruct with
+  | false => obtain ⟨m, e⟩ := declared_item it (Or.inl hs); rw [e] at h; cases h
+  | true =>
+  cases hg : it.hasGenerics with
+  | true => obtain ⟨m, e⟩ := declared_item it (Or.inr (Or.inl hg)); rw [e] at h; cases h
+  | false =>
+  cases hf : it.hasFields with
+  | true => obtain ⟨m, e⟩ := declared_item it (Or.inr (Or.inr hf)); rw [e] at h; cases h
+  | false =>
+  refine ⟨rfl, rfl, rfl, ?_⟩
+  rcases declared_spec it hs hg hf with ⟨hr, hd⟩ | ⟨j, r, hr, hj, hd⟩ | ⟨j, a, msg, h2, _, _, hd⟩
+  · rw [hd] at h
+    cases hu : (unitAttrs it).isEmpty with
+    | true => simp [hu] at h
+    | false =>
+      simp only [hu, Bool.false_eq_true, if_false] at h
+      cases hp : parseUnits false (unitsIx it) with
+      | error e => simp [hp] at h
+      | ok us =>
+        simp only [hp, Except.ok.injEq] at h
+        obtain ⟨h1, h2⟩ := parseUnitsIx_ok false it us hp
+        exact ⟨by intro e; simp [e] at hu, us, h1, h2, Or.inl ⟨hr, h.symm⟩⟩
+  · rw [hd] at h
+    cases hu : (unitAttrs it).isEmpty with
+    | true => simp [hu] at h
+    | false =>
+      simp only [hu, Bool.false_eq_true, if_false] at h
+      cases hpr : parseUnit r.toks with
+      | none => simp [hpr] at h
+      | some rd =>
+        simp only [hpr] at h
+        cases hsc : rd.scale with
+        | some l => simp [hsc] at h
+        | none =>
+          simp only [hsc, Option.isSome_none, Bool.false_eq_true, if_false] at h
+          cases hp : parseUnits true (unitsIx it) with
+          | error e => simp [hp] at h
+          | ok us =>
+            simp only [hp, Except.ok.injEq] at h
+            obtain ⟨h1, h2⟩ := parseUnitsIx_ok true it us hp
+            exact ⟨by intro e; simp [e] at hu, us, h1, h2, Or.inr ⟨r, rd, hr, hpr, hsc, h.symm⟩⟩
+  · rw [hd] at h; cases h
+
+/-- the macro accepts EXACTLY the well-formed definitions (any number of units) -/
+theorem expand_ok_iff (it : RawItem) : (∃ d, expand it = .ok d) ↔ WellFormedRaw it = true := by
+  rw [expand_ok_iff']
+  cases hs : it.isStruct with
+  | false => obtain ⟨m, e⟩ := declared_item it (Or.inl hs); simp [e, WellFormedRaw, hs]
+  | true =>
+  cases hg : it.hasGenerics with
+  | true => obtain ⟨m, e⟩ := declared_item it (Or.inr (Or.inl hg)); simp [e, WellFormedRaw, hg]
+  | false =>
+  cases hf : it.hasFields with
+  | true => obtain ⟨m, e⟩ := declared_item it (Or.inr (Or.inr hf)); simp [e, WellFormedRaw, hf]
+  | false =>
+  unfold WellFormedRaw
+  simp only [hs, hg, hf, Bool.not_false, Bool.true_and, Bool.and_true]
+  rcases declared_spec it hs hg hf with ⟨hr, hd⟩ | ⟨j, r, hr, hj, hd⟩ | ⟨j, a, msg, h2, _, _, hd⟩
+  · rw [hd, hr]
+    cases hu : (unitAttrs it).isEmpty with
+    | true => simp
+    | false =>
+      have : _ ↔ (unitAttrs it).all (unitOk false) = true := parseUnitsIx_ok_iff false it
+      rw [unitOk_false_eq] at this
+      simp only [Bool.false_eq_true, if_false, Bool.not_false, Bool.and_eq_true]
+      rw [and_comm, ← this]
+      cases parseUnits false (unitsIx it) <;> simp
+  · rw [hd, hr]
+    cases hu : (unitAttrs it).isEmpty with
+    | true => simp
+    | false =>
+      have : _ ↔ (unitAttrs it).all (unitOk true) = true := parseUnitsIx_ok_iff true it
+      rw [unitOk_true_eq] at this
+      simp only [Bool.false_eq_true, if_false, Bool.not_false, Bool.and_eq_true]
+      cases hpr : parseUnit r.toks with
+      | none => simp
+      | some rd =>
+        cases hsc : rd.scale with
+        | some l => simp [hsc]
+        | none =>
+          simp only [hsc, Option.isSome_none, Bool.false_eq_true, if_false, Option.isNone_none, true_and]
+          rw [and_comm, ← this]
+          cases parseUnits true (unitsIx it) <;> simp
+  · rw [hd]
+    have : ∃ x y l, refAttrs it = x :: y :: l := by
+      cases h : refAttrs it with
+      | nil => simp [h] at h2
+      | cons x l => cases l with
+        | nil => simp [h] at h2
+        | cons y l => exact ⟨x, y, l, rfl⟩
+    obtain ⟨x, y, l, e⟩ := this
+    simp [e]
+
+/-- the six documented forms of a unit attribute are parsed faithfully: identifier ↦ variant
+(UpperCamel) and name (underscores shown as spaces), symbol, prefix, scale literal, doc -/
+theorem parse_unit_forms (i s d p : Text) (l : Lit) :
+    parseUnit [.ident i, .comma, .str s] =
+      some ⟨Case.upperCamel i, i.map (fun c => if c = 95 then 32 else c), s, none, none, none⟩ ∧
+    parseUnit [.ident i, .comma, .str s, .comma, .str d] =
+      some ⟨Case.upperCamel i, i.map (fun c => if c = 95 then 32 else c), s, none, none, some d⟩ ∧
+    parseUnit [.ident i, .comma, .str s, .comma, .float l] =
+      some ⟨Case.upperCamel i, i.map (fun c => if c = 95 then 32 else c), s, none, some l, none⟩ ∧
+    parseUnit [.ident i, .comma, .str s, .comma, .int l, .comma, .str d] =
+      some ⟨Case.upperCamel i, i.map (fun c => if c = 95 then 32 else c), s, none, some l, some d⟩ ∧
+    parseUnit [.ident i, .comma, .str s, .comma, .ident p, .comma, .float l] =
+      some ⟨Case.upperCamel i, i.map (fun c => if c = 95 then 32 else c), s, some p, some l, none⟩ ∧
+    parseUnit [.ident i, .comma, .str s, .comma, .ident p, .comma, .int l, .comma, .str d] =
+      some ⟨Case.upperCamel i, i.map (fun c => if c = 95 then 32 else c), s, some p, some l, some d⟩ := by
+  refine ⟨rfl, rfl, rfl, rfl, rfl, rfl⟩
+
+/-- what the expansion contains: the struct's name, and exactly one unit per `#[unit]` /
+`#[ref_unit]` attribute, carrying what that attribute declares (the reference unit gets
+the scale literal `1.0`) -/
+theorem expand_faithful (it : RawItem) (d : QtyDef) (h : expand it = .ok d) :
+    d.name = it.name ∧
+    d.units.length = (unitAttrs it).length + (refAttrs it).length ∧
+    (∀ u ∈ d.units, ∃ a ∈ it.attrs, ∃ u0, parseUnit a.toks = some u0 ∧
+      ((a.kind = .unit ∧ u = u0) ∨ (a.kind = .refUnit ∧ u = { u0 with scale := some litOne }))) ∧
+    (d.refIdent.isSome ↔ (refAttrs it) ≠ []) := by
+  obtain ⟨dc, dv, hd, _, rfl⟩ := expand_ok_inv it d h
+  obtain ⟨_, _, _, _, us, hus, hlen, hc⟩ := declared_ok_spec it dc hd
+  have hmem : ∀ u ∈ us, ∃ a ∈ it.attrs, ∃ u0, parseUnit a.toks = some u0 ∧
+      ((a.kind = .unit ∧ u = u0) ∨ (a.kind = .refUnit ∧ u = { u0 with scale := some litOne })) := by
+    intro u hu
+    rw [hus, List.mem_filterMap] at hu
+    obtain ⟨a, ha, hpa⟩ := hu
+    unfold unitAttrs at ha
+    rw [List.mem_filter] at ha
+    exact ⟨a, ha.1, u, hpa, Or.inl ⟨by simpa using ha.2, rfl⟩⟩
+  refine ⟨rfl, ?_, ?_, ?_⟩
+  · show (isort (orderOf dc) dc.units).length = _
+    rw [(isort_perm _ _).length_eq]
+    rcases hc with ⟨hr, rfl⟩ | ⟨r, rd, hr, _, _, rfl⟩
+    · simp [hr, hlen]
+    · simp [hr, hlen]
+  · intro u hu
+    have hu' : u ∈ dc.units := (isort_perm _ _).mem_iff.mp hu
+    rcases hc with ⟨hr, rfl⟩ | ⟨r, rd, hr, hpr, _, rfl⟩
+    · exact hmem u hu'
+    · rcases List.mem_cons.mp hu' with rfl | hu'
+      · have hr' : r ∈ refAttrs it := by rw [hr]; simp
+        unfold refAttrs at hr'
+        rw [List.mem_filter] at hr'
+        exact ⟨r, hr'.1, rd, hpr, Or.inr ⟨by simpa using hr'.2, rfl⟩⟩
+      · exact hmem u hu'
+  · rcases hc with ⟨hr, rfl⟩ | ⟨r, rd, hr, _, _, rfl⟩
+    · simp [hr]
+    · simp [hr]
+
+/-- the path the generator takes depends only on the declaration: single unit, without or
+with reference unit -/
+theorem expand_kind (it : RawItem) (d : QtyDef) (h : expand it = .ok d) :
+    d.kind = (if (unitAttrs it).length + (refAttrs it).length = 1 then QtyKind.single
+              else if (refAttrs it) = [] then .noRef else .withRef) := by
+  obtain ⟨_, hl, _, hr⟩ := expand_faithful it d h
+  unfold QtyDef.kind
+  rw [hl]
+  by_cases h1 : (unitAttrs it).length + (refAttrs it).length = 1
+  · simp [h1]
+  · simp only [h1, if_false]
+    by_cases h2 : refAttrs it = []
+    · have : d.refIdent.isNone = true := by
+        cases hd : d.refIdent with
+        | none => rfl
+        | some x => rw [hd] at hr; exact absurd h2 (hr.mp rfl)
+      simp [h2, this]
+    · have : d.refIdent.isNone = false := by
+        have := hr.mpr h2
+        cases hd : d.refIdent with
+        | none => simp [hd] at this
+        | some x => rfl
+      simp [h2, this]
+
+set_option linter.unusedVariables false in
+/-- reordering the unit attributes changes nothing but, possibly, the order of the units:
+the two expansions have the same units (as multisets), the same reference unit and the same
+derivation; by `C09.iter_sorted` both are sorted, so only units sharing a key can swap -/
+theorem permutation_invariant (it1 it2 : RawItem) (hp : it1.attrs.Perm it2.attrs)
+    (hn : it1.name = it2.name) (ha : it1.args = it2.args) (hs : it1.isStruct = it2.isStruct)
+    (hg : it1.hasGenerics = it2.hasGenerics) (hf : it1.hasFields = it2.hasFields)
+    (d1 d2 : QtyDef) (h1 : expand it1 = .ok d1) (h2 : expand it2 = .ok d2) :
+    d1.units.Perm d2.units ∧ d1.refIdent = d2.refIdent ∧ d1.derived = d2.derived ∧ d1.name = d2.name := by
+  obtain ⟨dc1, dv1, hd1, ha1, rfl⟩ := expand_ok_inv it1 d1 h1
+  obtain ⟨dc2, dv2, hd2, ha2, rfl⟩ := expand_ok_inv it2 d2 h2
+  obtain ⟨_, _, _, _, us1, hus1, _, hc1⟩ := declared_ok_spec it1 dc1 hd1
+  obtain ⟨_, _, _, _, us2, hus2, _, hc2⟩ := declared_ok_spec it2 dc2 hd2
+  have hpu : (unitAttrs it1).Perm (unitAttrs it2) := hp.filter _
+  have hpr : (refAttrs it1).Perm (refAttrs it2) := hp.filter _
+  have hus : us1.Perm us2 := by rw [hus1, hus2]; exact hpu.filterMap _
+  have hdv : dv1 = dv2 := by
+    rw [ha] at ha1; rw [ha1] at ha2; exact Except.ok.inj ha2
+  have key : dc1.units.Perm dc2.units ∧ dc1.refIdent = dc2.refIdent := by
+    rcases hc1 with ⟨hr1, rfl⟩ | ⟨r1, rd1, hr1, hp1, _, rfl⟩ <;>
+      rcases hc2 with ⟨hr2, rfl⟩ | ⟨r2, rd2, hr2, hp2, _, rfl⟩
+    · exact ⟨hus, rfl⟩
+    · rw [hr1, hr2] at hpr; simpa using hpr.length_eq
+    · rw [hr1, hr2] at hpr; simpa using hpr.length_eq
+    · rw [hr1, hr2] at hpr
+      have : r1 = r2 := by simpa using hpr
+      subst this
+      rw [hp1] at hp2
+      cases hp2
+      exact ⟨hus.cons _, rfl⟩
+  refine ⟨?_, key.2, hdv, hn⟩
+  exact ((isort_perm _ _).trans key.1).trans (isort_perm _ _).symm
+
+/-- and a permuted well-formed definition is again well-formed -/
+theorem wellformed_perm (it1 it2 : RawItem) (hp : it1.attrs.Perm it2.attrs)
+    (ha : it1.args = it2.args) (hs : it1.isStruct = it2.isStruct)
+    (hg : it1.hasGenerics = it2.hasGenerics) (hf : it1.hasFields = it2.hasFields)
+    (h : WellFormedRaw it1 = true) : WellFormedRaw it2 = true := by
+  have hpu : (unitAttrs it1).Perm (unitAttrs it2) := hp.filter _
+  have hpr : (refAttrs it1).Perm (refAttrs it2) := hp.filter _
+  have hall : ∀ f : RawAttr → Bool, (unitAttrs it2).all f = (unitAttrs it1).all f :=
+    fun f => (hpu.all_eq).symm
+  have hemp : (unitAttrs it2).isEmpty = (unitAttrs it1).isEmpty := by
+    have := hpu.length_eq
+    cases h1 : unitAttrs it1 <;> cases h2 : unitAttrs it2 <;> simp [h1, h2] at this ⊢
+  unfold WellFormedRaw at h ⊢
+  rw [← ha, ← hs, ← hg, ← hf, hemp, hall, hall]
+  cases h1 : refAttrs it1 with
+  | nil =>
+    rw [h1] at hpr h
+    rw [List.nil_perm.mp hpr]; exact h
+  | cons r l =>
+    cases l with
+    | nil =>
+      rw [h1] at hpr h
+      rw [← List.singleton_perm.mp hpr]; exact h
+    | cons r' l => rw [h1] at h; simp at h
+
+/-- the scale a unit reports is the literal's exact value in the amount type: decimal exactly
+(for literals with at most 18 fractional digits), binary correctly rounded -/
+theorem scale_is_literal_value (l : Lit) (d : Dec) (h : Dec.ofLit l = some d) : d.toRat = l.value := by
+  simp only [Dec.ofLit] at h
+  split_ifs at h <;>
+    simp only [Option.some.injEq] at h <;> subst h <;>
+    rw [Dec.toRat_eq] <;> unfold Lit.value <;> simp only [pow10_eq] <;>
+    rename_i hn _ _ _
+  · exfalso; omega
+  · have hge : l.exp - (l.nfrac : Int) ≥ 0 := by omega
+    simp only [if_pos hge]
+    simp [hn, Dec.tenPow_cast]
+  · have hge : ¬ l.exp - (l.nfrac : Int) ≥ 0 := by omega
+    simp only [if_neg hge]
+    simp [hn, neg_div]
+  · have h0 : l.exp - (l.nfrac : Int) = 0 := by omega
+    simp [hn, h0]
+  · exfalso; omega
+  · have hge : l.exp - (l.nfrac : Int) ≥ 0 := by omega
+    simp only [if_pos hge]
+    simp [hn, Dec.tenPow_cast]
+  · have hge : ¬ l.exp - (l.nfrac : Int) ≥ 0 := by omega
+    simp only [if_neg hge]
+    simp [hn]
+  · have h0 : l.exp - (l.nfrac : Int) = 0 := by omega
+    simp [hn, h0]
+
+/-- non-vacuity: a concrete well-formed definition with three attributes in "wrong" order -/
+example : WellFormedRaw
+    { args := [], name := [81],
+      attrs := [⟨.unit, [.ident [66], .comma, .str [98], .comma, .float { digits := 5, nfrac := 1, isFloat := true }]⟩,
+                ⟨.refUnit, [.ident [65], .comma, .str [97]]⟩,
+                ⟨.unit, [.ident [67], .comma, .str [99], .comma, .ident [75, 73, 76, 79], .comma, .int { digits := 1000 }]⟩] } = true := by
+  decide +kernel
+
 end Qty.C11
